@@ -2,7 +2,7 @@
 from __future__ import annotations
 import ast
 from typing import Dict, List, Set
-from ..model import Program, AnalysisError, own_nodes, norm
+from ..model import decorator_name, Program, AnalysisError, own_nodes, norm
 from ..report import Report
 from ..effects import effects_for, Effect, star
 
@@ -76,6 +76,41 @@ def run(prog: Program, rep: Report, tier: str) -> None:
         f = prog.func(mod, fn)
         effs = [e for e in eng.summaries[f].writes if e.root.startswith('G:') and e.root not in allowed]
         rep.ob('C18-D4 globals', f.fq(), f"{fn} writes no module-level mutable", f.loc(), not effs, '' if not effs else f"writes {sorted({e.root for e in effs})} at {effs[0].loc}")
+
+    # D4b state kept by a decorator: a cache in the closure of a wrapping decorator (or functools.cache / lru_cache) survives
+    # the call exactly like a module-level dict: results are shared between calls and between callers
+    n_dec = 0
+    for f in prog.all_functions():
+        if f.is_lambda:
+            continue
+        for d in f.node.decorator_list:
+            n_dec += 1
+            dn = decorator_name(d)
+            last = dn.rsplit('.', 1)[-1] if dn else ''
+            why = None
+            if last in ('cache', 'lru_cache', 'cached_property', 'memoize', 'memoized'):
+                why = f"@{dn} keeps every result for the life of the process"
+            else:
+                g = None
+                r = prog.resolve_global(f.module, last) if last else None
+                if r is not None and r[0] == 'func':
+                    g = r[1]
+                if g is not None:
+                    fresh = {n.targets[0].id for n in own_nodes(g.node) if isinstance(n, ast.Assign) and len(n.targets) == 1 and isinstance(n.targets[0], ast.Name) and _mutable_fresh(n.value)}
+                    for w in [c for c in g.children if not c.is_lambda]:
+                        for x in ast.walk(w.node):
+                            tgt = None
+                            if isinstance(x, ast.Subscript) and isinstance(x.ctx, (ast.Store, ast.Del)) and isinstance(x.value, ast.Name):
+                                tgt = x.value.id
+                            elif isinstance(x, ast.Call) and isinstance(x.func, ast.Attribute) and isinstance(x.func.value, ast.Name) \
+                                    and x.func.attr in ('append', 'add', 'update', 'setdefault', 'extend', 'insert', 'pop', 'clear'):
+                                tgt = x.func.value.id
+                            if tgt in fresh and tgt not in {a.arg for a in ast.walk(w.node.args) if isinstance(a, ast.arg)}:
+                                why = f"@{dn}: the wrapper `{w.name}` writes `{tgt}`, a container created once when {f.name} is defined"
+            rep.ob('C18-D4 decorator-state', f.fq(), f"@{dn or norm(d)} on {f.qualname}", f.loc(d), why is None,
+                   'the decorator keeps no state between calls' if why is None else
+                   why + ': a later call with an argument the key does not distinguish (another option, a grammar edited in between) is answered from the memory, and all callers share one result object')
+    rep.analysed['decorators_examined'] = n_dec
 
     # D5 default arguments: a default is evaluated once, at definition time; a mutable default that the body (or a callee)
     # writes, or that the function hands out, is state that persists from one call to the next
